@@ -18,7 +18,7 @@ SPEC_FORMS = {"old", "forall", "exists", "implies", "result", "unfold", "iff", "
               "count", "raised", "fresh_const", "pw2", "cls_name", "str_contains", "dyn_float", "to_dyn", "let",
               "map_has", "seq_contains", "str_to_int", "int_to_str", "d_int", "d_float", "d_list", "d_chars", "d_is_int",
               "d_is_float", "d_is_list", "d_is_str", "d_is_dict", "d_is_none", "bitlen", "d_mk_list", "d_mk_str", "d_mk_float",
-              "d_mk_int", "d_mk_dict_empty", "d_set", "size", "d_absent", "fn_name", "effect_count", "effect_arg", "effect_recv", "effect_index", "world", "effect_result", "empty_options"}
+              "d_mk_int", "d_mk_dict_empty", "d_set", "size", "d_absent", "fn_name", "effect_count", "effect_arg", "effect_recv", "effect_index", "world", "effect_result", "empty_options", "py_str"}
 
 
 class EvalMixin:
@@ -326,10 +326,24 @@ class EvalMixin:
                 e = self.to_str_term(st, x)
                 out = e if out is None else z3.If(c, e, out)
             return out
+        if isinstance(v, Z) and v.t.kind == "dyn":
+            return self.py_str(st, v.e)
         if isinstance(v, Opaque):
             return z3.Const("strof!" + v.tag, Str)     # str() of an unknown value: a fixed unknown string per value
         st.notes.append("str() of a non-string value treated as an unspecified string")
         return st.fresh("strof", Str)
+
+    def py_str(self, st, d):
+        """str() of a dynamic value: an uninterpreted function that is the identity on strings and the decimal numeral on
+        integers (floats, lists, ... : unspecified but a function of the value)"""
+        fn = smt.ufunc("py.str", Dyn, Str)
+        app = fn(d)
+        n = smt.dyn_acc("DInt", 0, d)
+        ax = z3.And(z3.Implies(smt.dyn_is("DName", d), app == smt.dyn_acc("DName", 0, d)),
+                    z3.Implies(smt.dyn_is("DInt", d), app == z3.If(n >= 0, z3.IntToStr(n), smt.str_of_int(n))))
+        bs = [b for b in st.bound if self._mentions(ax, b)]
+        st.axioms.append(z3.ForAll(bs, ax, patterns=[app]) if bs else ax)
+        return app
 
     def ev_Starred(self, st, n):
         raise OutsideSubset("starred outside call/list")
@@ -463,6 +477,14 @@ class EvalMixin:
             bs = [b for b in st.bound if self._mentions(ax, b)]
             return z3.ForAll(bs, ax) if bs else ax
 
+        # postconditions of contract-cut calls in the element expression: one instance per element of the source
+        pend = st.ghost.get("__pending_binder") or []
+        mine = [g for b, g in pend if b.eq(xb)]
+        st.ghost["__pending_binder"] = [(b, g) for b, g in pend if not b.eq(xb)]
+        for g in mine:
+            i = z3.Const("mi!", Int)
+            st.axioms.append(close(z3.ForAll([i], z3.Implies(z3.And(0 <= i, i < z3.Length(it.e)),
+                                                               z3.substitute(g, (xb, smt.seq_nth(it.e, i)))))))
         if not conds:
             i = z3.Const("mi!", Int)
             body = z3.substitute(ev.e, (xb, smt.seq_nth(it.e, i)))
@@ -585,6 +607,12 @@ class EvalMixin:
                 if not st.spec and not self.branch(st, z3.And(0 <= i, i < z3.Length(s)), "idx"):
                     raise PyRaise(self.make_exc(st, "IndexError", []))
                 return Z(T("dyn"), smt.seq_nth(s, i))
+            if kind == "tuple":
+                ci = const_int(k) if isinstance(k, Z) else None
+                if ci is None or not (-len(c.t.args) <= ci < len(c.t.args)):
+                    raise OutsideSubset("tuple index that is not a literal in range")
+                srt, mk, accs = smt.tuple_sort(tuple(a.z3sort() for a in c.t.args))
+                return Z(c.t.args[ci], accs[ci](c.e))
             if kind == "str":
                 i = self.as_int(st, k)
                 ln = z3.Length(c.e)
@@ -642,7 +670,13 @@ class EvalMixin:
     def ev_BoolOp(self, st, n):
         is_and = isinstance(n.op, ast.And)
         if st.spec:
-            vals = [self.ev(st, v) for v in n.values]
+            vals = []
+            for vn in n.values:
+                v = self.ev(st, vn)
+                vals.append(v)
+                # python's short circuit for a decided operand: the rest is not evaluated (it may be undefined there)
+                if isinstance(v, Z) and v.t.kind == "bool" and ((is_and and is_false(v.e)) or (not is_and and is_true(v.e))):
+                    return v
             if all(isinstance(v, Z) and v.t.kind == "bool" for v in vals):
                 es = [v.e for v in vals]
                 return zbool(z3.And(es) if is_and else z3.Or(es))
